@@ -343,3 +343,70 @@ Proof.
   unfold finish, withInjects. msimpl. cbn [r_plain r_out r_err r_events].
   repeat split.
 Qed.
+
+(* ---------------- C06 in the key exchange: a Signature message that fails a check changes nothing ---------------- *)
+(* While waiting for the Signature message: if the MAC, the decryption or the signature check of the message fails,
+   the call reports an error and the conversation is what it was (pending error replies are handed out). *)
+Theorem rejected_signature_is_inert now c ver stag rtag es mac aux rnd a :
+  isOTREnabled (c_policies c) = true -> header_ok c ver stag rtag ->
+  c_ake c = Some a -> a_state a = 3 ->
+  fst (fst (processEncryptedSig es mac 4 c [])) = false ->
+  let '(c', r) := step now c (CReceive (WEnc ver stag rtag (EAke (BSig es mac))) aux rnd) in
+  r_plain r = None /\ r_out r = c_injections c /\ r_err r = 1 /\ r_events r = [c_MessageEventSetupError] /\
+  c' = c <| c_injections := [] |>.
+Proof.
+  intros Hp [Hv Hh] Ha Hst Hfail.
+  unfold step, receive. msimpl. rewrite Hp. cbn [negb].
+  unfold receiveDecoded, commitToVersionFrom. msimpl.
+  assert (Hv0 : negb (c_version c =? 0) = true).
+  { destruct Hh as [->|[-> _]]; rewrite Hv; reflexivity. }
+  assert (Hver : ver <> 0) by (destruct Hh as [->|[-> _]]; discriminate).
+  rewrite Hv0. change (negb (0 =? 0)) with false. msimpl.
+  rewrite Hv, N.eqb_refl. cbn [negb]. msimpl.
+  assert (Htag : (if ver =? 3 then verifyInstanceTags stag rtag else ret 0) c [] = (0, c, [])).
+  { destruct Hh as [->|[-> [H1 [H2 H3]]]]; [reflexivity|]. apply verifyInstanceTags_ok; assumption. }
+  unfold ret in Htag. rewrite Htag. change (0 =? 1) with false. change (0 =? 2) with false. msimpl.
+  unfold processAKE. msimpl. rewrite Ha. msimpl.
+  unfold processAKE_body. msimpl. unfold the_ake. rewrite Ha. msimpl.
+  change (c_msgTypeSig =? c_msgTypeDHCommit) with false. change (c_msgTypeSig =? c_msgTypeDHKey) with false.
+  change (c_msgTypeSig =? c_msgTypeRevealSig) with false. change (c_msgTypeSig =? c_msgTypeSig) with true. cbn iota.
+  rewrite Hst. msimpl.
+  pose proof (processEncryptedSig_spec es mac 4 c []) as S.
+  destruct (processEncryptedSig es mac 4 c []) as [[ok c1] ev1]. cbn [fst] in Hfail. subst ok.
+  destruct S as [-> [_ S]]. rewrite (S eq_refl). cbn [negb]. msimpl.
+  rewrite Ha. msimpl. rewrite Hst. change (1 =? 0) with false. cbn [andb]. msimpl.
+  rewrite (forgetVersion_noop ver) by exact Hver. rewrite forgetTag_noop by reflexivity.
+  unfold finish, withInjects. msimpl. change (1 =? 0) with false. cbn iota. cbn [r_plain r_out r_err r_events].
+  repeat split.
+Qed.
+
+(* an unreadable D-H Commit while an exchange is waiting for the Reveal Signature or the Signature message: the
+   stored commitment / the exchange in progress is left alone *)
+Theorem unreadable_commit_is_inert now c ver stag rtag flag aux rnd a :
+  isOTREnabled (c_policies c) = true -> header_ok c ver stag rtag ->
+  c_ake c = Some a -> (a_state a = 2 \/ a_state a = 3) ->
+  let '(c', r) := step now c (CReceive (WEnc ver stag rtag (EBadBody c_msgTypeDHCommit flag)) aux rnd) in
+  r_plain r = None /\ r_out r = c_injections c /\ r_err r = 1 /\ r_events r = [c_MessageEventSetupError] /\
+  c' = c <| c_injections := [] |>.
+Proof.
+  intros Hp [Hv Hh] Ha Hst.
+  unfold step, receive. msimpl. rewrite Hp. cbn [negb].
+  unfold receiveDecoded, commitToVersionFrom. msimpl.
+  assert (Hv0 : negb (c_version c =? 0) = true).
+  { destruct Hh as [->|[-> _]]; rewrite Hv; reflexivity. }
+  assert (Hver : ver <> 0) by (destruct Hh as [->|[-> _]]; discriminate).
+  rewrite Hv0. change (negb (0 =? 0)) with false. msimpl.
+  rewrite Hv, N.eqb_refl. cbn [negb]. msimpl.
+  assert (Htag : (if ver =? 3 then verifyInstanceTags stag rtag else ret 0) c [] = (0, c, [])).
+  { destruct Hh as [->|[-> [H1 [H2 H3]]]]; [reflexivity|]. apply verifyInstanceTags_ok; assumption. }
+  unfold ret in Htag. rewrite Htag. change (0 =? 1) with false. change (0 =? 2) with false. msimpl.
+  change (c_msgTypeDHCommit =? c_msgTypeData) with false. cbn iota.
+  unfold processAKE. msimpl. rewrite Ha. msimpl.
+  unfold processAKE_body. msimpl. unfold the_ake. rewrite Ha. msimpl.
+  change (c_msgTypeDHCommit =? c_msgTypeDHCommit) with true. cbn iota.
+  destruct Hst as [Hst|Hst]; rewrite Hst; msimpl; rewrite Ha; msimpl; rewrite Hst;
+    change (1 =? 0) with false; cbn [andb]; msimpl;
+    rewrite (forgetVersion_noop ver) by exact Hver; rewrite forgetTag_noop by reflexivity;
+    unfold finish, withInjects; msimpl; change (1 =? 0) with false; cbn iota; cbn [r_plain r_out r_err r_events];
+    repeat split.
+Qed.
